@@ -174,7 +174,9 @@ func (a *wAttach) update(w *wWorld, st *wStep) {
 				a.att[s.Sess][route] = wAtt{User: s.User, Chan: isChan, Name: name}
 			}
 		case "leave":
-			if ok {
+			// (304 "not joined": the server says the session is not attached - whatever the model made of
+			// an earlier reply on a route where cache and store disagreed)
+			if at, has := a.att[s.Sess][s.Route]; ok || (c != nil && c.Code == 304 && has && at.User == s.User) {
 				a.drop(s.Sess, s.Route)
 			}
 		case "del":
